@@ -826,7 +826,40 @@ func hostileShape(t *rapid.T) (string, string) {
 	}
 }
 
+// importLadder: module L<i> imports L<i+1> two or three times, for 12..40
+// levels (optionally closed into a cycle at the bottom): the number of import
+// paths is exponential in the depth, the number of modules linear. Compiling
+// must terminate (each module is compiled once / the cycle is reported).
+func importLadder(t *rapid.T) *tcase {
+	c := &tcase{modules: "source", origin: "hostile:import-ladder"}
+	depth := 12 + uni(t, "ladder-depth", 29)
+	fan := 2 + uni(t, "ladder-fan", 2)
+	cyc := uni(t, "ladder-cycle", 4) == 0
+	for i := 0; i < depth; i++ {
+		var b strings.Builder
+		for k := 0; k < fan; k++ {
+			switch {
+			case i+1 < depth:
+				fmt.Fprintf(&b, "v%d := import(\"L%d\")\n", k, i+1)
+			case cyc && k == 0:
+				fmt.Fprintf(&b, "v%d := import(\"L%d\")\n", k, uni(t, "ladder-back", depth))
+			default:
+				fmt.Fprintf(&b, "v%d := %d\n", k, k)
+			}
+		}
+		b.WriteString("export {a: v0, b: v1}\n")
+		c.mods = append(c.mods, srcMod{name: fmt.Sprintf("L%d", i), body: []byte(b.String())})
+	}
+	c.src = []byte("x := import(\"L0\")\ny := import(\"L0\")\n")
+	c.fileImport = rapid.Bool().Draw(t, "file-import")
+	drawVars(t, c)
+	return c
+}
+
 func drawHostileCase(t *rapid.T) *tcase {
+	if uni(t, "ladder", 25) == 0 {
+		return importLadder(t)
+	}
 	c := &tcase{}
 	imports := drawConfig(t, c)
 	s, kind := hostileShape(t)
